@@ -65,10 +65,15 @@ def scenario(env, make, query, update, chunks, relevant_skip=("n_features_in_",)
     res_A = []
     relevant = None
     for t, ch in enumerate(chunks):
+        s0 = {k: copy.deepcopy(v) for k, v in sl.bm_state(A).items()}
         r1 = query(A, ch)
         s1 = {k: copy.deepcopy(v) for k, v in sl.bm_state(A).items()}
         if relevant is None:
             relevant = set(s1) - set(relevant_skip)
+        # every attribute that existed before the call has the value it had before (attributes created lazily by the
+        # first call are compared from then on)
+        for k in sorted(relevant & set(s0)):
+            env.prove(sl.eq_value(s0.get(k), s1.get(k)), f"query_restores_state:{k}", info=dict(step=t))
         r2 = query(A, ch)
         s2 = sl.bm_state(A)
         env.prove(_same_result(r1, r2), "repeated_query_same_result", info=dict(step=t))
